@@ -120,6 +120,10 @@ func (r *FileReader) ReadNext() ([]byte, error) {
 			if err != nil {
 				return nil, err
 			}
+			err = checkDecompressedLength(len(buf), payloadSizeUncompressed)
+			if err != nil {
+				return nil, err
+			}
 
 			return copyBuf(buf), nil
 		}
@@ -369,6 +373,10 @@ func readNextV1(r *FileReader) ([]byte, error) {
 		if err != nil {
 			return nil, fmt.Errorf("error while decompressing record of '%s': %w", r.file.Name(), err)
 		}
+		err = checkDecompressedLength(len(recordBuffer), payloadSizeUncompressed)
+		if err != nil {
+			return nil, err
+		}
 	}
 
 	r.currentOffset = r.currentOffset + expectedBytesRead
@@ -417,6 +425,10 @@ func readNextV2(r *FileReader) ([]byte, error) {
 		defer r.bufferPool.Put(pooledDecompressionBuffer)
 
 		decompressedRecord, err := r.header.compressor.DecompressWithBuf(pooledRecordBuffer, pooledDecompressionBuffer)
+		if err != nil {
+			return nil, err
+		}
+		err = checkDecompressedLength(len(decompressedRecord), payloadSizeUncompressed)
 		if err != nil {
 			return nil, err
 		}
@@ -490,6 +502,10 @@ func readNextV3(r *FileReader) ([]byte, error) {
 		defer r.bufferPool.Put(pooledDecompressionBuffer)
 
 		buf, err := r.header.compressor.DecompressWithBuf(pooledRecordBuffer, pooledDecompressionBuffer)
+		if err != nil {
+			return nil, err
+		}
+		err = checkDecompressedLength(len(buf), payloadSizeUncompressed)
 		if err != nil {
 			return nil, err
 		}
